@@ -31,7 +31,13 @@ MAX_STEPS = 400  # a normal execution needs well under 100 callbacks
 LAGS = (0, 0.5, 2.5)  # a wake-up may come this much later than its timer's due time (less / more than a window)
 
 
-def make_run_one(count, window, arrivals, victim, lag_budget=0, reduce=True):
+class BodyError(Exception):
+    pass
+
+
+def make_run_one(count, window, arrivals, victim, lag_budget=0, exits=None, reduce=True):
+    """exits: None (every guarded body ends at once, normally) or one of 'ok' | 'raise' | 'hold' (one external yield, then
+    ends normally) | 'raise1' (one external yield, then raises) per entrant."""
     """arrivals: tuple of arrival times; victim: None | (entrant index, cancel time)."""
     from hailtop.utils.rate_limiter import RateLimit, RateLimiter
 
@@ -73,9 +79,21 @@ def make_run_one(count, window, arrivals, victim, lag_budget=0, reduce=True):
                     inwin = [x for x in admitted if x > t - window + EPS]
                     if len(inwin) > count:
                         fail('rate-exceeded', f'count={count} window={window:g}: admission at t={rel(t):g} is number {len(inwin)} in the window '
-                             f'({rel(t) - window:g}, {rel(t):g}]; admissions so far at {[rel(x) for x in admitted]}; arrivals {arrivals}')
+                             f'({rel(t) - window:g}, {rel(t):g}]; admissions so far at {[rel(x) for x in admitted]}; arrivals {arrivals}; '
+                             f'how the guarded bodies end: {exits or "normally"}; states {ph}; cancellation: {st["ctl"]}')
+                    # the guarded body: an entrant that was admitted stays admitted however its body ends
+                    kind = exits[i] if exits else 'ok'
+                    if kind in ('hold', 'raise1'):
+                        ph[i] = 'inside'
+                        await vloopx.ext_yield()
+                    if kind in ('raise', 'raise1'):
+                        ph[i] = 'raised'
+                        raise BodyError()
+                    ph[i] = 'left'
+            except BodyError:
+                pass
             except asyncio.CancelledError:
-                ph[i] = 'cancelled'
+                ph[i] = 'cancelled-inside' if ph[i] == 'inside' else 'cancelled'
 
         def on_quiescent():
             waiting = [i for i in range(n) if ph[i] == 'waiting' and not tasks[i].done()]
@@ -105,6 +123,8 @@ def make_run_one(count, window, arrivals, victim, lag_budget=0, reduce=True):
                 kind = 'before-arrival'
             elif ph[v] == 'waiting':
                 kind = 'woken-before-resume' if wake_pending(tk) else 'while-sleeping-inside'
+            elif ph[v] == 'inside':
+                kind = 'inside-the-guarded-body'
             else:
                 kind = 'after-exit'
             st['ctl'] = kind
@@ -166,6 +186,8 @@ def _explore_config(cfg):
 
     for k, c in r.outcomes.items():
         ctl, ph, adm, waited, lags, livelock = ast.literal_eval(k)
+        if 'raised' in ph:
+            bump('a-guarded-body-raised', c)
         if lags:
             bump('late-wake-up', c)
             if waited:
@@ -186,8 +208,8 @@ def _explore_config(cfg):
 
 
 def _size(cfg):
-    count, window, arrivals, victim, lagb = cfg
-    return (len(arrivals), 0 if victim is None else 1, lagb, sum(arrivals), count, window, arrivals, victim or (-1, -1))
+    count, window, arrivals, victim, lagb = cfg[:5]
+    return (len(arrivals), 0 if victim is None else 1, lagb, sum(arrivals), count, window, arrivals, victim or (-1, -1), cfg[5] if len(cfg) > 5 else ())
 
 
 def configs(tier):
@@ -215,14 +237,30 @@ def configs(tier):
                         if cfg not in seen:
                             seen.add(cfg)
                             out.append(cfg)
+    # guarded bodies that raise / are cancelled inside: enough entrants to refill the window within one period
+    fam = [(1, 3), (2, 4)] if tier == 'quick' else [(1, 3), (2, 4), (1, 4), (3, 5)]
+    for c, n in fam:
+        for arr in itertools.combinations_with_replacement((0, 0.5), n):
+            for ex in itertools.product(('ok', 'raise', 'hold', 'raise1'), repeat=n):
+                nonok = sum(1 for e in ex if e != 'ok')
+                if nonok == 0 or nonok > (1 if (tier == 'quick' and n >= 4) else 2):
+                    continue
+                if any(arr[j] == arr[j - 1] and ex[j] < ex[j - 1] for j in range(1, n)):
+                    continue  # interchangeable entrants: one representative
+                victims = [None] + [(v, t) for v in range(n) if ex[v] in ('hold', 'raise1') for t in (0, 0.5) if t >= arr[v]
+                                    and not (v > 0 and arr[v] == arr[v - 1] and ex[v] == ex[v - 1])]
+                for v in victims:
+                    for w in ((1.0,) if tier == 'quick' else (1.0, 2.0)):
+                        out.append((c, w, arr, v, 1 if (v is None and n <= 3) else 0, ex))
     out.sort(key=_size)
     return out
 
 
 SELFCHECK = [
-    (1, 1.0, (0, 0), (1, 1.0), 0),
-    (2, 1.0, (0, 0, 0.5), None, 1),
-    (1, 2.0, (0, 0.5, 2.0), (1, 2.0), 1),
+    (1, 1.0, (0, 0), (1, 1.0), 0, None),
+    (2, 1.0, (0, 0, 0.5), None, 1, None),
+    (1, 2.0, (0, 0.5, 2.0), (1, 2.0), 1, None),
+    (1, 1.0, (0, 0, 0.5), (0, 0), 0, ('hold', 'raise', 'ok')),
 ]
 
 
@@ -230,6 +268,7 @@ def _selfcheck_pruning():
     for cfg in SELFCHECK:
         a = vloop.explore(make_run_one, cfg + (True,), bound=None, procs=1)
         b = vloop.explore(make_run_one, cfg + (False,), bound=None, procs=1, prune=False, cap=8000)
+        # (the last element of the tuple is the unused `reduce` flag)
         # executions that spin until the step horizon (only a broken limiter does that) revisit states for ever: the pruned
         # search rightly cuts such cycles, so they are left out of the comparison
         ao = {o for o in a.outcomes if not ast.literal_eval(o)[-1]}
@@ -274,14 +313,17 @@ def check(tier, seed, procs):
         'distinct_outcomes': outcomes,
         'executions_by_feature': dict(sorted(cnt.items())),
         'deviation_bound': 'unbounded (every order of timer/external-event completions at every instant over a FIFO ready queue, state-hash pruned)',
-        'bounds': ('count 1-2, window 1 s / 2 s, 2-3 entrants arriving at 0/0.5/1/2 s, at most one entrant cancelled at 0/1/2 s; without a '
+        'bounds': ('guarded bodies that raise (at once / after a yield) or are cancelled inside, mixed with normal ones: count 1 with 3 entrants, '
+                   'count 2 with 4' + (' (one such body, no late wake-up)' if tier == 'quick' else ', count 1 with 4, count 3 with 5') +
+                   ', arrivals 0/0.5 s, <=2 such bodies, cancellation at 0/0.5 s; and: ') + (
+                   'count 1-2, window 1 s / 2 s, 2-3 entrants arriving at 0/0.5/1/2 s, at most one entrant cancelled at 0/1/2 s; without a '
                    'cancellation at most one late wake-up (lag 0.5 or 2.5 s)' if tier == 'quick' else
                    'late wake-ups (lag 0.5 / 2.5 s): <=2 per execution for 2-3 entrants (3 entrants: only without cancellation), <=1 for 4 entrants '
                    'without cancellation; ' +
                    'count 1-3, window 1 s / 2 s; 2-3 entrants arriving at 0/0.5/1/1.5/2/2.25 s with <=1 cancelled at 0/0.5/1/1.5/2/2.5/3 s; '
                    '4 entrants arriving at 0/0.5/1/2 s with <=1 cancelled at 0/1/2 s; 5 entrants (count 1-2) arriving at 0/0.5/1/2 s, none cancelled'),
     }
-    need = ['late-wake-up-with-a-waiter', 'cancel:before-arrival', 'cancel:while-sleeping-inside', 'cancel:woken-before-resume', 'cancel:after-exit',
+    need = ['cancel:inside-the-guarded-body', 'a-guarded-body-raised', 'late-wake-up-with-a-waiter', 'cancel:before-arrival', 'cancel:while-sleeping-inside', 'cancel:woken-before-resume', 'cancel:after-exit',
             'an-entrant-had-to-wait', 'two-or-more-waiting-together', 'two-admissions-at-one-instant']
     missing = [k for k in need if not cnt.get(k)]
     return {
@@ -295,6 +337,7 @@ def check(tier, seed, procs):
             'anything queued later); the environment decides when each external event completes (every yield of a harness body, '
             'arrivals, the cancellation) and which of the timers due at one instant fires next, and appends that completion at the '
             'end of the ready queue; every such order is explored',
+            'an admission is the instant __aenter__ returned; it counts for the rate however the guarded body ends (returns, raises, is cancelled)',
             'no order among waiting entrants is demanded; "as soon as possible" is judged for the set of waiters',
             f'late wake-ups: when time advances to the next timer the environment may overshoot its due time by one of {LAGS} s (bounded number per '
             'execution, see bounds); the rate is judged on the real instants at which entrants leave __aenter__; "as soon as possible" is judged '
@@ -306,6 +349,7 @@ def check(tier, seed, procs):
 
 
 def replay(obj):
-    c, w, arr, v, lagb = obj['config']
-    x = vloop.run_prefix(make_run_one(c, w, tuple(arr), None if v is None else tuple(v), lagb), tuple(obj['choices']))
+    c, w, arr, v, lagb = obj['config'][:5]
+    ex = tuple(obj['config'][5]) if len(obj['config']) > 5 and obj['config'][5] else None
+    x = vloop.run_prefix(make_run_one(c, w, tuple(arr), None if v is None else tuple(v), lagb, ex), tuple(obj['choices']))
     return x.violation is None, x.violation or 'no violation'
